@@ -147,6 +147,34 @@ Section Spec.
   (** ** C16 *)
   Definition is_maint (o : op) : bool :=
     match o with OMaint _ | OJanitorTick _ _ | OJanitorSignal _ _ => true | _ => false end.
+
+  (* the notifications [new] handed to the channel by operation [o] taking s to s' are truthful:
+     each names an entry that was resident with that value, is gone afterwards, and carries the
+     reason of what removed it *)
+  Definition C16_truthful (s s' : state) (o : op) (new : list notif) : Prop :=
+    forall n, In n new ->
+      exists e, find P c s (n_key n) = Some e /\ e_id e = n_id n /\ e_val e = n_val n
+        /\ (forall e', find P c s' (n_key n) = Some e' -> e_id e' <> n_id n)
+        /\ match n_reason n with
+           | Invalidated => removes o (n_key n) = true
+           | Expired => is_maint o = true /\ (fix_f16 (c_fix c) = true -> expired c (st_now P s) e = true)
+           | Capacity => is_maint o = true /\ c_cap c < U64_MAX
+           end.
+
+  (* when the channel did not drop anything during o: every entry that o made disappear,
+     other than by overwrite or clear, is notified *)
+  Definition C16_complete (s s' : state) (o : op) (new : list notif) : Prop :=
+    c_listener c = true -> st_ndrops P s' = st_ndrops P s ->
+    forall k e, find P c s k = Some e ->
+      (forall e', find P c s' k = Some e' -> e_id e' <> e_id e) ->
+      silent o k = false ->
+      exists n, In n new /\ n_id n = e_id e /\ n_key n = k /\ n_val n = e_val e.
+
+  Definition C16_step (s : state) (o : op) : Prop :=
+    let s' := fst (step P c s o) in
+    exists new, sent s' = sent s ++ new
+                /\ C16_truthful s s' o new /\ C16_complete s s' o new
+                /\ (c_listener c = false -> new = []).
 End Spec.
 
 (* order-preserving sub-list *)
